@@ -337,7 +337,7 @@ PROPS = {
         "n_quick": 4000, "n_thorough": 300000,
         "nontrivial": _c07_nontrivial, "tags": _c07_tags, "shrink": _c07_shrink,
         "rule": "one request in ten is `sscan k p rc perm read`: the deprecated wrapper simple_scan (an observation point of C07) with a permutation score, judged on tiling, lengths and bucket = canonical rank of a minimal p-mer lying in every k-mer of the interval. The others: requests `scan k p seq score container` generated from one xorshift state (alphabet 1-4; uniform, tandem-repeat, "
-                "homopolymer, s++rc(s) and chunk-pasted sequences; k = p..p+12 incl. k = p; scores: random permutation table, "
+                "homopolymer, s++rc(s) and chunk-pasted sequences; k = p..p+12 incl. k = p; scores: random permutation table, tables that mask p-mers with usize::MAX (some, all, all but one) next to usize::MAX-1 and small values, "
                 "rank mod 3, random 0..3, rc-symmetric, linear-hash mod {1,2,3,5,17,1000,1000003}, constant; containers DnaSlice, "
                 "DnaString, Lmer3; 2.5% sequences shorter than k). Non-trivial = the real scan returned at least two intervals; "
                 "distinct = distinct request lines.",
@@ -353,7 +353,7 @@ PROPS = {
         "nontrivial": _c08_nontrivial, "tags": _c08_tags, "shrink": _c08_shrink,
         "rule": "requests `msp k p rc perm container reads`: 1-5 reads per set (random, tandem, homopolymer, palindromic, chunk-pasted; a third "
                 "of the later reads are reverse complements / shifted windows / copies of earlier ones so that the same k-mer occurs in several "
-                "reads, positions and strands), p in {2,3,4} (thorough: ..6), k = p+1..p+12, default and random permutations, rc on/off, "
+                "reads, positions and strands), p in {2,3,4} (thorough: ..6) and, one request in 15, p = 8 or 10 (thorough also 12) with the default permutation (its 4^p-entry identity table), k = p+1..p+12, default and random permutations, rc on/off, "
                 "containers DnaBytes, DnaString, Lmer1/2/3 (k capped so that 2k-p fits, with a 1/30 stream violating the capacity "
                 "assertion). Non-trivial = at least two reads and some read split into >= 2 pieces.",
         "trusted_base": ["modelled, not verified: Vmer::from_slice / get of each container reproduce the bases written (that is C13/C14/C17)"],
@@ -404,7 +404,7 @@ PROPS = {
                 "clear, blank, from_bytes, from_acgt_bytes, from_dna_string (10% non-ACGT characters); after every operation the raw "
                 "storage blocks and length are observed (serde), at the end all renderings, reverse, rc, and ==/hash/cmp against the "
                 "from_bytes route to the same bases and against `other` (random, a proper prefix, an extension by A's or random bases, "
-                "same-length for ndiffs); `pset <seqs>`: PackedDnaStringSet add/get. Non-trivial = at least 3 operations.",
+                "same-length for ndiffs); one history in 25 starts from a string of 255..4100 bases (both sides of 256, 1024, 2048); `pset <seqs>`: PackedDnaStringSet add/get. Non-trivial = at least 3 operations.",
         "trusted_base": ["#[derive(PartialEq, Eq, Ord, Hash)] on DnaString are the structural functions of (storage: Vec<u64>, len); "
                          "Vec<u64> order is lexicographic with a proper prefix first"],
         "assumptions": ["set_mut index < len, bases < 4, push_bytes within its bytes (guard theorem covers the other side), "
@@ -426,7 +426,7 @@ PROPS = {
                 "(slice(a,b), prefix, suffix, rc in any interleaving; 1/60 intervals out of range), then all renderers incl. Debug, to_owned "
                 "(raw storage), == against an owned copy, get_kmer of one of 8 k-mer types; `ham <s1> <s2> a1 r1 a2 r2 n`: hamming_dist of two "
                 "views of length n (0..200, block boundaries, 1023-2100; thorough 5000) at arbitrary offsets, either reverse-complemented, "
-                "with 0-4 differences planted at positions 0, 31, 32, 1023, 1024, n/2, n-1. Non-trivial = ham, or nesting depth >= 2.",
+                "with 0-4 differences planted at positions 0, 31, 32, 1023, 1024, n/2, n-1; one pair in five is dense instead: 2048..4100 bases with every base of a long stretch shifted by a constant (or a sequence against a homopolymer). Non-trivial = ham, or nesting depth >= 2.",
         "trusted_base": [],
         "assumptions": ["interval arguments inside the view (outside: the crate asserts; compared as panic)"],
     },
@@ -455,8 +455,8 @@ PROPS = {
         "nontrivial": lambda toks, impl: impl not in ("panic", "-"), "tags": _c13_tags,
         "rule": "requests `<ktype> getkmer|iter|iterexts|term <container> <seq> [arg]` over 12 k-mer types (K = 2..64, all five storage widths) and "
                 "containers DnaString, forward and reverse-complemented DnaStringSlice at random offsets inside a longer string, Lmer of "
-                "1,2,3,4,6 words (25% at max_len), DnaBytes, DnaSlice; sequence lengths: < K and = K (1/6), block boundaries 31..97 (1/6), "
-                "K..K+80; every k-mer answer carries the raw storage word. Non-trivial = the answer contains at least one k-mer.",
+                "1,2,3,4,6 words (25% at max_len), DnaBytes, DnaSlice; sequence lengths: < K and = K (1/6), block boundaries 31..300 (1/6), "
+                "K..K+80; one request in ten is a bulk constructor `kmersb` / `kmersa` (packed bases; text in either case with other characters); every k-mer answer carries the raw storage word. Non-trivial = the answer contains at least one k-mer.",
         "trusted_base": [],
         "assumptions": ["positions with pos + K <= len (outside: asserted by the crate)"],
     },
@@ -486,7 +486,7 @@ PROPS = {
         "nontrivial": lambda toks, impl: impl not in ("panic", "unavailable"), "tags": _c16_tags,
         "rule": "requests: `acgt auto|scalar <bytes>` (lengths 0..130 incl. 0,1,31..33,63..65,95..97,128,130; 60% ACGTacgt, 40% arbitrary bytes "
                 "0..255; valid 32-byte blocks with 0-2 lanes perturbed to arbitrary values plus a tail), `kernel convert|pack <32 bytes>` "
-                "(raw AVX2 kernels through the hook wrappers, arbitrary bytes incl. >= 4 for pack), `str`, `only` (ASCII text with 40% "
+                "(raw AVX2 kernels through the hook wrappers, arbitrary bytes incl. >= 4 for pack), `str` (`acgt` and `str` answers carry `to_string()` as well, expected: the upper-cased input; one length in 40 is 255..2049), `only` (ASCII text with 40% "
                 "arbitrary ASCII; half of the `only` texts are built from runs of valid bases with lengths around and on multiples of 32, one to three other characters between them), `hashn <b1> <b2> <name>` (two byte strings under one read name: non-ACGT positions shared between the "
                 "two must receive the same base). Forced-scalar path through the verif_hooks switch. Non-trivial = an answer was produced.",
         "trusted_base": ["x86 semantics of the eleven AVX2 intrinsics as transcribed in Model/Avx2.lean (validated against the hardware by the "
@@ -547,7 +547,7 @@ PROPS = {
                 "directions, get_valid_exts with all-valid or a random validity set, max_path with random integer scores 0..5 and solid "
                 "flags, max_path_beam with beam widths 1, 2, 5 and the same scores, sequence_of_path of the best paths and of a random walk along reported edges; `prune K stranded sharded table all`: "
                 "both pruning functions with a random censored quarter; `pipe K stranded thr reads`: the pipeline end to end with overlap, "
-                "symmetry and adjacency-set = (K+1)-mers-of-the-reads checked. Non-trivial = graph with >= 2 nodes, or a prune/pipe request.",
+                "symmetry and adjacency-set = (K+1)-mers-of-the-reads checked; one request in 150 is a `pipe` on a single read with a run of 65 600-70 000 equal bases and other bases around it (a k-mer observed more often than its u16 count tells; late flanks). Non-trivial = graph with >= 2 nodes, or a prune/pipe request.",
         "trusted_base": ["BoomHashMap::get is exact on distinct keys (node ends of a valid graph are distinct)", "scores are small integers, exactly representable as f32"],
         "assumptions": ["pruning slices sorted by key (what filter_kmers + sort deliver)"],
     },
@@ -559,7 +559,7 @@ PROPS = {
         "nontrivial": lambda toks, impl: impl not in ("panic", "-") and toks[8].count(",") >= 2, "tags": _c09_tags,
         "rule": "requests `recompress K gstranded stranded join reduce censor nodes` on graphs obtained from the real pipeline at three compression "
                 "levels (one k-mer per node; two separately compressed halves combined with BaseGraph::combine; fully compressed), censor "
-                "sets none / the real tip finder's output / a random fifth of the nodes; stranded 1/3; join always|payload equality; reduce "
+                "sets none / the real tip finder's output / a random fifth of the nodes, one list in four with repeated ids (any position) or ids beyond the graph, as concatenated verdicts of several cleaners give; stranded 1/3; join always|payload equality; reduce "
                 "sum|max|mix. The debug_assert!(is_compressed) inside compress_graph is live in the checked harness profile. "
                 "Non-trivial = at least three input nodes and a non-empty result.",
         "trusted_base": ["BoomHashMap::get exact on distinct node ends; finish() = finish_serial() (C19)"],
@@ -586,7 +586,7 @@ PROPS = {
         "nontrivial": lambda toks, impl: impl != "panic" and (toks[1] != "export" or toks[4].count(",") >= 1), "tags": _c20_tags,
         "shrink": _c20_shrink,
         "rule": "requests `export K stranded nodes rest`: GFA and JSON text of graphs from the pipeline (60%), hand-made empty / single-node / "
-                "link-free graphs (single and link-free nodes also on both sides of 256 bases, pipeline graphs with a 280-340-base read: `Debug` of a view stops printing bases there), pipeline graphs with dangling extension bits and removed nodes, with and without a `rest` object (keys with quotes, backslashes, control characters); to_gfa (file) must equal write_gfa, to_gfa_with_tags (file), to_dot (file) and `Debug` of every node are compared with the model; the JSON is additionally parsed with serde_json and its node and "
+                "link-free graphs (single and link-free nodes also on both sides of 256 bases and, one single node in twelve, of 8192 / 16384 bases, pipeline graphs with a 280-340-base read: `Debug` of a view stops printing bases there), pipeline graphs with dangling extension bits and removed nodes, with and without a `rest` object (keys with quotes, backslashes, control characters); to_gfa (file) must equal write_gfa, to_gfa_with_tags (file), to_dot (file) and `Debug` of every node are compared with the model; the JSON is additionally parsed with serde_json and its node and "
                 "link counts compared with the graph; `persist kmer|dna|exts|lmer|graph …`: the text serde_json writes is compared with the model's (`Serde.*`; for graphs the `BaseGraph` text), and the round trip is observed with equality and query "
                 "comparison. Non-trivial = export of a graph with >= 2 nodes, or a persist request.",
         "trusted_base": ["serde / serde_json derive code (round trips are tested, not proved)", "Debug of DnaStringSlice (C15) renders the node sequence"],
